@@ -1,6 +1,682 @@
-//! Monitor for C32 (see /verif/DESIGN.md §5 C32).
-use vcommon::Args;
+//! C32 — builder fees are bounded by what the order actually produced.
+//!
+//! Part 1 (direct, hooks `ops::order::verif::*`, `Order::verif_record_builder_fee`): the real private
+//! helpers on generated sizes / factors / prices / increments / outputs. BigInt oracle from the
+//! statement and the helpers' unit tests: fee value `V = ⌊size·factor/10^20⌋` (USD, 20 decimals — the
+//! program's fixed-point product), fee amount `= ⌈V / price.min⌉` token units (unit price = USD·10^20
+//! per smallest token unit; tests: $50 at $2/unit = 25, at $3/unit = 17). Increase: `fee + remaining ==
+//! increment` or the call fails. Decrease: recorded `= min(fee, output)` ≤ output. Estimate:
+//! `withdrawal + fee`, never below the withdrawal, monotone in size.
+//!
+//! Part 2 (instructions): `settle_builder_fee` on real orders (pending and executed decrease orders
+//! produced by the real create / execute flows). In the pinned tree execution passes a zero builder
+//! factor (`TODO(builder-fee)` in ops/order.rs) and no instruction writes `Order::builder`, so a
+//! recorded fee is unreachable through instructions: the three builder fields of the real order
+//! account are injected with `set_account` (state injection), everything else is real.
+use crate::world::{
+    exchange::{load, OrderKind, OrderReq},
+    six, World, STORE_PID, UNIT,
+};
+use anchor_lang::prelude::*;
+use anchor_spl::token::spl_token;
+use gmsol_model::{action::decrease_position::DecreasePositionSwapType, price::Price};
+use gmsol_store::ops::order::verif::{
+    verif_charge_builder_fee_on_collateral_increment, verif_clamp_builder_fee_amount, verif_compute_builder_fee_amount,
+    verif_estimate_builder_fee_for_collateral_withdrawal,
+};
+use gmsol_store::states::{Order, Position, UserHeader};
+use gmsol_store::{accounts as sa, instruction as si};
+use hostsvm::{key, token};
+use vcommon::{
+    big::{b, div_ceil, div_floor},
+    json,
+    monitor::{guard, run_shards},
+    num_bigint::BigInt,
+    Args, Monitor, Rng,
+};
 
-pub fn run(_args: &Args) -> Option<i32> {
-    None
+const OFF_AMOUNT: usize = 8 + 2328;
+const OFF_BUILDER: usize = 8 + 2336;
+const OFF_FACTOR: usize = 8 + 2368;
+
+fn gen_size(rng: &mut Rng) -> u128 {
+    match rng.below(10) {
+        0 => rng.biased_u128(u128::MAX, UNIT),
+        1 => rng.log_u128(u128::MAX),
+        2 => rng.range_u128(0, 1_000),
+        _ => rng.range_u128(1, 10_000_000) * UNIT / rng.range_u128(1, 1_000) + rng.log_u128(UNIT),
+    }
+}
+
+fn gen_factor(rng: &mut Rng) -> u128 {
+    match rng.below(12) {
+        0 => 0,
+        1 => 1,
+        2 => UNIT / 2_000,
+        3 => UNIT / 100,
+        4 => UNIT,
+        5 => UNIT + 1,
+        6 => 10 * UNIT,
+        7 => rng.biased_u128(u128::MAX, UNIT),
+        _ => rng.log_u128(UNIT / 10),
+    }
+}
+
+fn gen_unit_price(rng: &mut Rng) -> u128 {
+    match rng.below(10) {
+        0 => 0,
+        1 => 1,
+        2 => rng.biased_u128(u128::MAX, UNIT),
+        3 => 2 * UNIT,
+        4 => 3 * UNIT,
+        // realistic: $0.0001 .. $100k per whole token, 0..9 token decimals
+        _ => rng.range_u128(1, 1_000_000_000) * 10u128.pow(rng.range(7, 16) as u32),
+    }
+}
+
+struct Expect {
+    /// `None` = the fee is not computable for a documented reason (named).
+    fee: std::result::Result<BigInt, &'static str>,
+}
+
+fn expect_fee(size: u128, factor: u128, min_price: u128) -> Expect {
+    if factor == 0 {
+        return Expect { fee: Ok(b(0)) };
+    }
+    let v = div_floor(&(b(size) * b(factor)), &b(UNIT));
+    if v > b(u128::MAX) {
+        return Expect { fee: Err("fee_value_exceeds_u128") };
+    }
+    if min_price == 0 {
+        return Expect { fee: Err("zero_price") };
+    }
+    let fee = div_ceil(&v, &b(min_price));
+    if &v + b(min_price) > b(u128::MAX) {
+        // documented `(a + d) - 1` style helper: the intermediate `a + d` may overflow
+        return Expect { fee: Err("round_up_intermediate_exceeds_u128") };
+    }
+    Expect { fee: Ok(fee) }
+}
+
+fn direct_case(rng: &mut Rng, m: &mut Monitor, shard: u64, case: u64) {
+    let size = gen_size(rng);
+    let factor = gen_factor(rng);
+    let pmin = gen_unit_price(rng);
+    let pmax = if rng.chance(1, 10) { gen_unit_price(rng) } else { pmin.saturating_add(rng.log_u128(pmin / 100 + 1)) };
+    let price = Price { min: pmin, max: pmax };
+    let ex = expect_fee(size, factor, pmin);
+    let wit = |extra: serde_json_value| {
+        json!({"shard": shard, "case": case, "size_delta_usd": size.to_string(), "factor": factor.to_string(),
+               "price_min": pmin.to_string(), "price_max": pmax.to_string(), "detail": extra})
+    };
+    // --- compute
+    m.eval();
+    let got = match guard(|| verif_compute_builder_fee_amount(size, factor, &price)) {
+        Ok(r) => r.map_err(|e| e.to_string()),
+        Err(p) => {
+            m.count("direct_panics");
+            Err(format!("panic: {p}"))
+        }
+    };
+    match (&got, &ex.fee) {
+        (Ok(x), Ok(f)) => {
+            if b(*x) != *f {
+                m.violation("C32:compute:fee_differs_from_round_up_formula", wit(json!({"got": x.to_string(), "expected": f.to_string()})));
+            }
+            m.count("compute_ok");
+            if factor != 0 {
+                let exact_single_rounding = div_ceil(&(b(size) * b(factor)), &(b(UNIT) * b(pmin)));
+                if exact_single_rounding != *f {
+                    m.count("compute_two_step_rounding_below_single_ceil");
+                }
+                let rem = (div_floor(&(b(size) * b(factor)), &b(UNIT))) % b(pmin);
+                let class = if *f == b(0) { 0 } else if rem == b(0) { 1 } else { 2 };
+                let mut sig = vec![class as u8];
+                sig.extend_from_slice(&size.to_le_bytes());
+                sig.extend_from_slice(&factor.to_le_bytes());
+                sig.extend_from_slice(&pmin.to_le_bytes());
+                m.nontrivial(&sig);
+                if class == 2 {
+                    m.count("compute_rounded_up");
+                } else if class == 1 {
+                    m.count("compute_exact_division");
+                }
+            } else {
+                m.count("compute_zero_factor");
+            }
+        }
+        (Ok(x), Err(why)) => {
+            m.violation(
+                "C32:compute:fee_returned_where_not_computable",
+                wit(json!({"got": x.to_string(), "why_not_computable": why})),
+            );
+        }
+        (Err(_), Ok(_)) => {
+            m.count("compute_err_unexplained");
+            if m.wants_sample() {
+                m.sample(wit(json!({"unexplained_error": got.clone().err()})));
+            }
+        }
+        (Err(_), Err(why)) => m.count(&format!("compute_err_{why}")),
+    }
+    // --- monotone in size (same factor / price)
+    if let (Ok(x), true) = (&got, rng.chance(1, 4)) {
+        let size2 = size.saturating_add(rng.log_u128(size / 3 + 2));
+        if let Ok(Ok(y)) = guard(|| verif_compute_builder_fee_amount(size2, factor, &price)) {
+            m.eval();
+            if y < *x {
+                m.violation("C32:compute:fee_not_monotone_in_size", wit(json!({"size2": size2.to_string(), "fee1": x.to_string(), "fee2": y.to_string()})));
+            }
+            m.count("compute_monotone_pairs");
+        }
+    }
+    // --- increase: charge on collateral increment
+    let inc: u64 = match (&ex.fee, rng.below(6)) {
+        (Ok(f), 0) => vcommon::big::to_u64(f).unwrap_or(u64::MAX),
+        (Ok(f), 1) => vcommon::big::to_u64(&(f - 1)).unwrap_or(0),
+        (Ok(f), 2) => vcommon::big::to_u64(&(f + 1)).unwrap_or(u64::MAX),
+        (_, 3) => rng.biased_u64(u64::MAX, 1_000_000),
+        _ => rng.log_u64(u64::MAX),
+    };
+    m.eval();
+    match guard(|| verif_charge_builder_fee_on_collateral_increment(inc, size, factor, &price)) {
+        Err(_) => m.count("direct_panics"),
+        Ok(Ok((rem, fee))) => {
+            m.count("increment_ok");
+            if b(fee) + b(rem) != b(inc) {
+                m.violation(
+                    "C32:increment:fee_plus_remaining_differs_from_increment",
+                    wit(json!({"increment": inc, "remaining": rem, "fee": fee})),
+                );
+            }
+            match &ex.fee {
+                Ok(f) if *f == b(fee) => {}
+                other => m.violation(
+                    "C32:increment:fee_differs_from_round_up_formula",
+                    wit(json!({"increment": inc, "remaining": rem, "fee": fee, "expected": format!("{:?}", other.as_ref().map(|f| f.to_string()))})),
+                ),
+            }
+            if fee == inc && fee != 0 {
+                m.count("increment_fee_consumes_whole_increment");
+            }
+        }
+        Ok(Err(_)) => {
+            let explained = match &ex.fee {
+                Err(_) => true,
+                Ok(f) => *f > b(inc),
+            };
+            if explained {
+                m.count("increment_failed_explained");
+            } else {
+                m.count("increment_failed_unexplained");
+                if m.wants_sample() {
+                    m.sample(wit(json!({"increment": inc, "note": "failed although fee <= increment"})));
+                }
+            }
+        }
+    }
+    // --- decrease: clamp and record
+    let output: u64 = match (&ex.fee, rng.below(6)) {
+        (Ok(f), 0) => vcommon::big::to_u64(f).unwrap_or(u64::MAX),
+        (Ok(f), 1) => vcommon::big::to_u64(&(f - 1)).unwrap_or(0),
+        (Ok(f), 2) => vcommon::big::to_u64(&(f + 1)).unwrap_or(u64::MAX),
+        (_, 3) => 0,
+        _ => rng.log_u64(u64::MAX),
+    };
+    let payable: u128 = match &got {
+        Ok(x) => *x,
+        Err(_) => rng.biased_u128(u128::MAX, 1 << 64),
+    };
+    m.eval();
+    if let Ok(paid) = guard(|| verif_clamp_builder_fee_amount(payable, output as u128)) {
+        if paid > output as u128 {
+            m.violation("C32:clamp:recorded_fee_exceeds_output", wit(json!({"payable": payable.to_string(), "output": output, "paid": paid.to_string()})));
+        }
+        if paid != payable.min(output as u128) {
+            m.violation("C32:clamp:not_min_of_fee_and_output", wit(json!({"payable": payable.to_string(), "output": output, "paid": paid.to_string()})));
+        }
+        if paid < payable {
+            m.count("clamp_reduced");
+        } else {
+            m.count("clamp_unchanged");
+        }
+        // record on an order
+        if let Ok(amount) = u64::try_from(paid) {
+            let mut order: Box<Order> = Box::new(bytemuck::Zeroable::zeroed());
+            let first = if rng.chance(1, 3) { rng.biased_u64(u64::MAX, 1_000) } else { 0 };
+            let _ = order.verif_record_builder_fee(first);
+            let before = order.builder_fee_amount();
+            let r = guard(|| order.verif_record_builder_fee(amount));
+            m.eval();
+            match r {
+                Ok(Ok(())) => {
+                    if b(order.builder_fee_amount()) != b(before) + b(amount) {
+                        m.violation("C32:record:amount_not_accumulated", wit(json!({"before": before, "add": amount, "after": order.builder_fee_amount()})));
+                    }
+                    m.count("record_ok");
+                }
+                Ok(Err(_)) => {
+                    if order.builder_fee_amount() != before || b(before) + b(amount) <= b(u64::MAX) {
+                        m.violation("C32:record:failed_record_changed_or_unjustified", wit(json!({"before": before, "add": amount, "after": order.builder_fee_amount()})));
+                    }
+                    m.count("record_overflow_rejected");
+                }
+                Err(_) => m.count("direct_panics"),
+            }
+        }
+    } else {
+        m.count("direct_panics");
+    }
+    // --- estimate
+    let withdrawal = match rng.below(4) {
+        0 => rng.biased_u128(u128::MAX, 1 << 64),
+        _ => rng.log_u128(u64::MAX as u128),
+    };
+    let swap = *rng.pick(&[
+        DecreasePositionSwapType::NoSwap,
+        DecreasePositionSwapType::PnlTokenToCollateralToken,
+        DecreasePositionSwapType::CollateralToPnlToken,
+    ]);
+    m.eval();
+    match guard(|| verif_estimate_builder_fee_for_collateral_withdrawal(withdrawal, size, factor, &price, swap)) {
+        Err(_) => m.count("direct_panics"),
+        Ok(Ok(r)) => {
+            m.count("estimate_ok");
+            if r < withdrawal {
+                m.violation("C32:estimate:below_withdrawal_amount", wit(json!({"withdrawal": withdrawal.to_string(), "estimate": r.to_string()})));
+            }
+            if factor != 0 && matches!(swap, DecreasePositionSwapType::CollateralToPnlToken) {
+                m.count("estimate_ok_with_collateral_to_pnl_swap");
+            }
+            match &ex.fee {
+                Ok(f) if b(withdrawal) + f == b(r) => {}
+                other => m.violation(
+                    "C32:estimate:not_withdrawal_plus_fee",
+                    wit(json!({"withdrawal": withdrawal.to_string(), "estimate": r.to_string(), "expected_fee": format!("{:?}", other.as_ref().map(|f| f.to_string()))})),
+                ),
+            }
+            // monotone in size
+            if rng.chance(1, 3) {
+                let size2 = size.saturating_add(rng.log_u128(size / 3 + 2));
+                if let Ok(Ok(r2)) = guard(|| verif_estimate_builder_fee_for_collateral_withdrawal(withdrawal, size2, factor, &price, swap)) {
+                    m.eval();
+                    if r2 < r {
+                        m.violation("C32:estimate:not_monotone_in_size", wit(json!({"size2": size2.to_string(), "e1": r.to_string(), "e2": r2.to_string()})));
+                    }
+                    m.count("estimate_monotone_pairs");
+                }
+            }
+        }
+        Ok(Err(_)) => m.count("estimate_failed"),
+    }
+    if m.wants_sample() && case % 250_007 == 5 {
+        m.sample(wit(json!({"compute": format!("{got:?}"), "increment": inc, "output": output})));
+    }
+}
+
+#[allow(non_camel_case_types)]
+type serde_json_value = vcommon::serde_json::Value;
+
+// ------------------------------------------------------------------------------------------------
+// settle_builder_fee
+
+impl World {
+    fn c32_settle_ix(&self, order: Pubkey, mint: Pubkey, builder_user: Option<Pubkey>, with_vault: bool) -> anchor_lang::solana_program::instruction::Instruction {
+        six(
+            sa::SettleBuilderFee {
+                store: self.store,
+                order,
+                final_output_token: mint,
+                escrow: token::ata(&order, &mint),
+                builder_user,
+                claim_vault: builder_user.filter(|_| with_vault).map(|u| token::ata(&u, &mint)),
+                token_program: spl_token::ID,
+                event_authority: self.event_authority(),
+                program: STORE_PID,
+            },
+            si::SettleBuilderFee {},
+        )
+    }
+
+    fn c32_refresh_prices(&mut self, btc: usize, sol: usize, usdc: usize) -> bool {
+        let e18 = 1_000_000_000_000_000_000u128;
+        self.svm.warp(1);
+        self.set_price(btc, 59_990 * e18, 60_000 * e18, 60_010 * e18).is_ok()
+            && self.set_price(sol, 149 * e18, 150 * e18, 151 * e18).is_ok()
+            && self.set_price(usdc, e18, e18, e18).is_ok()
+    }
+}
+
+fn set_token_amount(w: &mut World, account: &Pubkey, amount: u64) {
+    use anchor_lang::solana_program::program_pack::Pack;
+    let Some(acc) = token::token_account(&w.svm, account) else { return };
+    let old = acc.amount;
+    token::set_token_account(&mut w.svm, *account, acc.mint, acc.owner, amount);
+    if let Some(m) = w.svm.accounts.get_mut(&acc.mint) {
+        if let Ok(mut mint) = spl_token::state::Mint::unpack(&m.data) {
+            mint.supply = mint.supply.saturating_sub(old).saturating_add(amount);
+            mint.pack_into_slice(&mut m.data);
+        }
+    }
+}
+
+fn instruction_shard(args: &Args, shard: u64, m: &mut Monitor) {
+    let mut rng = Rng::derive(args.seed, shard, 3232);
+    let iters = args.scale(70, 300);
+    let mut w = World::bootstrap_store();
+    w.svm.keep_logs = true;
+    w.bootstrap_oracle();
+    let btc = w.add_token("BTC", 8, 2, true);
+    let sol = w.add_token("SOL", 9, 4, false);
+    let usdc = w.add_token("USDC", 6, 6, false);
+    let m0 = w.add_market(btc, sol, usdc);
+    let (sol_mint, usdc_mint) = (w.tokens[sol].mint, w.tokens[usdc].mint);
+    let alice = w.add_user("alice");
+    let builder = w.add_user("builder");
+    let other = w.add_user("other");
+    let payer = key("settle-payer");
+    w.svm.airdrop(&payer, 1_000_000_000_000);
+    token::fund_ata(&mut w.svm, &alice, &sol_mint, 10_000_000_000_000);
+    token::fund_ata(&mut w.svm, &alice, &usdc_mint, 10_000_000_000_000);
+    if !w.c32_refresh_prices(btc, sol, usdc) {
+        m.inconclusive("harness: price bootstrap failed");
+        return;
+    }
+    // liquidity
+    match w.create_deposit(alice, m0, 800_000_000_000, 200_000_000_000, None, None, &[], &[], 0) {
+        Ok(d) => {
+            if let Err((e, meta)) = w.execute_deposit(d, true) {
+                m.inconclusive(&format!("harness: bootstrap deposit execution failed: {e:?} {:?}", meta.logs.iter().rev().take(6).collect::<Vec<_>>()));
+                return;
+            }
+            let _ = w.close_deposit(alice, d);
+        }
+        Err(_) => {
+            m.inconclusive("harness: bootstrap deposit creation failed");
+            return;
+        }
+    }
+    // builder / other user accounts through the real instructions
+    for u in [builder, other] {
+        let ix = w.prepare_user_ix(u);
+        if w.send(&[ix], &[u]).is_err() {
+            m.inconclusive("harness: prepare_user failed");
+            return;
+        }
+    }
+    let builder_user = w.user_pda(&builder);
+    let other_user = w.user_pda(&other);
+    // advertised factor through the real instructions (cap, then factor)
+    let cap = UNIT / 100;
+    let _ = w.insert_factor("max_builder_fee_factor", cap);
+    for (f, expect_ok) in [(UNIT / 2_000, true), (cap, true), (cap + 1, false), (0, true), (UNIT / 1_000, true)] {
+        let ix = six(
+            sa::SetBuilderFeeFactor { owner: builder, store: w.store, user: builder_user, event_authority: w.event_authority(), program: STORE_PID },
+            si::SetBuilderFeeFactor { factor: f },
+        );
+        let r = w.send(&[ix], &[builder]);
+        m.count(if r.is_ok() { "ix_set_builder_fee_factor_ok" } else { "ix_set_builder_fee_factor_rejected" });
+        if r.is_ok() != expect_ok {
+            m.count("ix_set_builder_fee_factor_unexpected_outcome");
+        }
+    }
+    let advertised = load::<UserHeader>(&w.svm, &builder_user).map(|u| u.builder_fee_factor()).unwrap_or(0);
+    for u in [builder_user, other_user] {
+        token::set_token_account(&mut w.svm, token::ata(&u, &usdc_mint), usdc_mint, u, 0);
+    }
+    let position = w.position_pda(&alice, m0, true, false);
+    for it in 0..iters {
+        // 1. open / add to the position
+        if !w.c32_refresh_prices(btc, sol, usdc) {
+            m.count("ix_price_refresh_failed");
+            continue;
+        }
+        let mut req = OrderReq::new(OrderKind::MarketIncrease, m0, true, false);
+        req.initial_collateral_delta_amount = 200_000_000;
+        req.size_delta_value = 1_000 * UNIT;
+        let Ok(o) = w.create_order(alice, &req) else {
+            m.count("ix_increase_create_failed");
+            continue;
+        };
+        if !w.c32_refresh_prices(btc, sol, usdc) || w.execute_order(o, true).is_err() {
+            m.count("ix_increase_execute_failed");
+            let _ = w.close_order(alice, o);
+            continue;
+        }
+        let _ = w.close_order(alice, o);
+        // 2. decrease order (pending or executed)
+        let size = load::<Position>(&w.svm, &position).map(|p| p.state.size_in_usd).unwrap_or(0);
+        let mut req = OrderReq::new(OrderKind::MarketDecrease, m0, true, false);
+        req.size_delta_value = if rng.chance(7, 10) { size } else { size / 2 };
+        req.initial_collateral_delta_amount = rng.range(0, 50_000_000);
+        let Ok(order) = w.create_order(alice, &req) else {
+            m.count("ix_decrease_create_failed");
+            continue;
+        };
+        let executed = rng.chance(3, 4);
+        if executed {
+            if !w.c32_refresh_prices(btc, sol, usdc) || w.execute_order(order, true).is_err() {
+                m.count("ix_decrease_execute_failed");
+                let _ = w.close_order(alice, order);
+                continue;
+            }
+            m.count("ix_order_executed");
+        } else {
+            m.count("ix_order_left_pending");
+        }
+        let Some(o): Option<Order> = load(&w.svm, &order) else {
+            m.count("ix_order_missing_after_flow");
+            continue;
+        };
+        if o.builder_fee_amount() != 0 || o.builder().is_some() {
+            // would contradict the stated reason for injecting
+            m.count("ix_real_flow_recorded_a_builder_fee");
+        }
+        let escrow = token::ata(&order, &usdc_mint);
+        let vault = token::ata(&builder_user, &usdc_mint);
+        // 3. choose escrow / recorded amounts
+        let natural = token::token_amount(&w.svm, &escrow).unwrap_or(0);
+        if rng.chance(1, 4) {
+            let v = match rng.below(4) {
+                0 => 0,
+                1 => 1,
+                2 => rng.log_u64(1_000_000_000),
+                _ => natural / 2,
+            };
+            set_token_amount(&mut w, &escrow, v);
+            m.count("ix_escrow_balance_injected");
+        }
+        let e0 = token::token_amount(&w.svm, &escrow).unwrap_or(0);
+        let recorded: u64 = match rng.below(10) {
+            0 => 0,
+            1 => e0,
+            2 => e0.saturating_add(1),
+            3 => e0.saturating_sub(1),
+            4 => u64::MAX,
+            5 => 1,
+            6 => e0.saturating_mul(2).saturating_add(rng.log_u64(1_000)),
+            _ => rng.log_u64(e0.max(2)),
+        };
+        {
+            let acc = w.svm.accounts.get_mut(&order).unwrap();
+            acc.data[OFF_AMOUNT..OFF_AMOUNT + 8].copy_from_slice(&recorded.to_le_bytes());
+            if recorded != 0 || rng.bool() {
+                acc.data[OFF_BUILDER..OFF_BUILDER + 32].copy_from_slice(builder_user.as_ref());
+                acc.data[OFF_FACTOR..OFF_FACTOR + 16].copy_from_slice(&advertised.to_le_bytes());
+            }
+        }
+        let Some(o): Option<Order> = load(&w.svm, &order) else {
+            m.inconclusive("harness: order unreadable after injection");
+            return;
+        };
+        if o.builder_fee_amount() != recorded || (recorded != 0 && o.builder() != Some(&builder_user)) {
+            m.inconclusive("harness: builder field offsets do not match the accessors");
+            return;
+        }
+        // optionally: close before settling must not lose the fee (counted only)
+        if recorded != 0 && executed && rng.chance(1, 6) {
+            match w.close_order(alice, order) {
+                Ok(_) => m.count("ix_close_with_unsettled_fee_ok"),
+                Err(_) => m.count("ix_close_with_unsettled_fee_rejected"),
+            }
+            if w.svm.get(&order).is_none() {
+                continue;
+            }
+        }
+        // 4. settle
+        let variant = rng.below(12);
+        let (bu, with_vault, vname) = match variant {
+            0 => (None, false, "no_builder_accounts"),
+            1 => (Some(other_user), true, "wrong_builder_user"),
+            2 => (Some(builder_user), false, "no_claim_vault"),
+            _ => (Some(builder_user), true, "proper"),
+        };
+        let snap = |w: &World| {
+            (
+                w.svm.get(&order).cloned(),
+                w.svm.get(&escrow).cloned(),
+                w.svm.get(&vault).cloned(),
+                w.svm.get(&token::ata(&other_user, &usdc_mint)).cloned(),
+                token::mint_supply(&w.svm, &usdc_mint),
+            )
+        };
+        let pre = snap(&w);
+        let v0 = token::token_amount(&w.svm, &vault).unwrap_or(0);
+        let ix = w.c32_settle_ix(order, usdc_mint, bu, with_vault);
+        let res = w.send(&[ix.clone()], &[payer]);
+        let post = snap(&w);
+        let e1 = token::token_amount(&w.svm, &escrow).unwrap_or(0);
+        let v1 = token::token_amount(&w.svm, &vault).unwrap_or(0);
+        let rec1 = load::<Order>(&w.svm, &order).map(|o| o.builder_fee_amount());
+        m.eval();
+        let wit = json!({
+            "shard": shard, "iter": it, "variant": vname, "order_executed": executed,
+            "recorded": recorded, "escrow_before": e0, "escrow_after": e1, "claim_vault_before": v0, "claim_vault_after": v1,
+            "recorded_after": rec1, "result": format!("{:?}", res.as_ref().map(|_| ()).map_err(|e| &e.0)),
+        });
+        match &res {
+            Err(_) => {
+                m.count(&format!("ix_settle_rejected_{vname}"));
+                if pre != post {
+                    m.violation("C32:settle:rejected_settlement_changed_state", wit.clone());
+                }
+                if vname == "proper" || recorded == 0 {
+                    m.count("ix_settle_rejected_unexpected");
+                    if m.wants_sample() {
+                        m.sample(wit.clone());
+                    }
+                }
+            }
+            Ok(_) => {
+                m.count(&format!("ix_settle_ok_{vname}"));
+                let moved_out = e0 as i128 - e1 as i128;
+                let moved_in = v1 as i128 - v0 as i128;
+                let other_changed = pre.3 != post.3;
+                if recorded == 0 {
+                    if pre != post {
+                        m.violation("C32:settle:zero_record_settlement_not_a_noop", wit.clone());
+                    }
+                    m.count("ix_settle_noop_zero_record");
+                } else {
+                    if moved_out != moved_in || pre.4 != post.4 || other_changed && vname != "wrong_builder_user" {
+                        m.violation("C32:settle:tokens_not_conserved", wit.clone());
+                    }
+                    if moved_out > recorded as i128 {
+                        m.violation("C32:settle:transferred_more_than_recorded", wit.clone());
+                    }
+                    if moved_out > e0 as i128 || moved_out < 0 {
+                        m.violation("C32:settle:transferred_more_than_escrow_holds", wit.clone());
+                    }
+                    if vname == "proper" && moved_out != recorded.min(e0) as i128 {
+                        m.violation("C32:settle:transferred_differs_from_min_recorded_escrow", wit.clone());
+                    }
+                    if rec1 != Some(0) {
+                        m.violation("C32:settle:record_not_zeroed", wit.clone());
+                    }
+                    // nothing else of the order changed
+                    if let (Some(a), Some(p)) = (&pre.0, &post.0) {
+                        let mut a2 = a.data.clone();
+                        a2[OFF_AMOUNT..OFF_AMOUNT + 8].copy_from_slice(&0u64.to_le_bytes());
+                        if a2 != p.data || a.lamports != p.lamports {
+                            m.violation("C32:settle:order_changed_beyond_the_record", wit.clone());
+                        }
+                    }
+                    if vname == "wrong_builder_user" {
+                        m.count("ix_settle_paid_to_unrecorded_builder");
+                    }
+                    let class = if e0 == 0 { 0u8 } else if recorded < e0 { 1 } else if recorded == e0 { 2 } else { 3 };
+                    m.count(["ix_settled_escrow_empty", "ix_settled_recorded_lt_escrow", "ix_settled_recorded_eq_escrow", "ix_settled_recorded_gt_escrow"][class as usize]);
+                    let mut sig = vec![class, executed as u8];
+                    sig.extend_from_slice(&recorded.to_le_bytes());
+                    sig.extend_from_slice(&e0.to_le_bytes());
+                    m.nontrivial(&sig);
+                }
+                // 5. repeat: must be a no-op
+                let pre2 = snap(&w);
+                let res2 = w.send(&[ix], &[payer]);
+                let post2 = snap(&w);
+                m.eval();
+                if pre2 != post2 {
+                    m.violation("C32:settle:repeated_settlement_not_a_noop", wit.clone());
+                }
+                m.count(if res2.is_ok() { "ix_repeat_ok_noop" } else { "ix_repeat_rejected" });
+            }
+        }
+        if m.wants_sample() && it % 23 == 1 {
+            m.sample(wit);
+        }
+        // 6. retire the order
+        match w.close_order(alice, order) {
+            Ok(_) => m.count("ix_close_after_settle_ok"),
+            Err(_) => m.count("ix_close_after_settle_failed"),
+        }
+    }
+}
+
+pub fn run(args: &Args) -> Option<i32> {
+    let mut mon = Monitor::new(
+        args,
+        "part 1: generated (size, factor, unit price min/max, collateral increment, output amount, withdrawal amount, swap \
+         type) — realistic magnitudes, zero / unit / >100 % factors, zero / extreme prices, increments and outputs at fee-1 / \
+         fee / fee+1 — into the real compute / charge-on-increment / clamp / estimate helpers and Order::record_builder_fee \
+         (hooks); BigInt oracle fee = ceil(floor(size*factor/1e20)/price.min). part 2: per shard a real store with a market, \
+         real increase then decrease orders (left pending or executed), the order's builder / factor / recorded amount (0, \
+         <, =, > escrow, u64::MAX) injected, sometimes the escrow balance too; settle_builder_fee with proper / missing / \
+         wrong builder accounts by an unrelated payer, then repeated. non-trivial = (1) a fee computed with a non-zero \
+         factor, (2) a settlement of a non-zero record that executed; distinct = hash of the inputs",
+    );
+    mon.assume("state injection: Order::{builder, builder_fee_factor, builder_fee_amount} (and sometimes the escrow balance) are written into real order accounts because no instruction of the pinned tree can record a builder fee (execution passes factor 0; set_builder_fee does not exist yet)");
+    mon.assume("fee value = the program's 20-decimal fixed-point product floor(size*factor/1e20); the amount is that value divided by the minimum unit price, rounded up");
+    let direct_shards = args.scale(32, 128);
+    let direct_cases = args.scale(120_000, 1_500_000);
+    let ix_shards = args.scale(32, 96);
+    let quiet = hostsvm::QuietStdout::new();
+    run_shards(&mut mon, args.threads, direct_shards + ix_shards, |shard, m| {
+        if shard < direct_shards {
+            let mut rng = Rng::derive(args.seed, shard, 32);
+            for case in 0..direct_cases {
+                direct_case(&mut rng, m, shard, case);
+            }
+        } else {
+            instruction_shard(args, shard - direct_shards, m);
+        }
+    });
+    drop(quiet);
+    mon.require("compute_rounded_up", 100_000);
+    mon.require("compute_exact_division", 1_000);
+    mon.require("increment_ok", 100_000);
+    mon.require("increment_failed_explained", 10_000);
+    mon.require("increment_fee_consumes_whole_increment", 1_000);
+    mon.require("clamp_reduced", 10_000);
+    mon.require("clamp_unchanged", 10_000);
+    mon.require("record_ok", 10_000);
+    mon.require("estimate_ok", 100_000);
+    mon.require("ix_settle_ok_proper", 500);
+    mon.require("ix_settled_recorded_lt_escrow", 100);
+    mon.require("ix_settled_recorded_gt_escrow", 100);
+    mon.require("ix_settled_recorded_eq_escrow", 30);
+    mon.require("ix_settled_escrow_empty", 30);
+    mon.require("ix_repeat_ok_noop", 500);
+    mon.require("ix_settle_noop_zero_record", 50);
+    Some(mon.finish())
 }
